@@ -8,7 +8,11 @@
      TY   = (base N) | (slice TY) | (map TY TY) | void
      OLD  = absent | (file ((N TY|invalid) ...)) | unparsable | nopkg
      REAL = (ok deleted) | (ok (file ((K N TY) ...))) | err
-     SAME = 1 bytes of derived.gen.go equal those of the scratch copy (or both absent / both failed), 0 otherwise *)
+     SAME = 1 bytes of derived.gen.go equal those of the scratch copy (or both absent / both failed), 0 otherwise
+   line:  (regen PKG OLD REAL SAME CTX)    the same for a run of an input class that the abstract package does not
+     show: CTX = testfile (the last calls of PKG stand in an in-package _test.go file, which the loader appends to the
+     files of the package), autoname | dedup | autoname-dedup (the run and its scratch copy had these flags and no
+     call had to be renamed: the flags change nothing then), or both (autoname-testfile ...).  CTX only enters the tag. *)
 From Verif Require Import Base Sexp.
 From Verif Require Import Regen.Model.
 Open Scope string_scope.
@@ -134,9 +138,7 @@ Definition outcome_tag (r : result) : string :=
   | RErr _ => "error"
   end.
 
-Definition eval07 (e : sexp) : verdict :=
-  match e with
-  | L [Sym k; L pk; od; real; Num same] =>
+Definition eval_regen (k : string) (pk : list sexp) (od real : sexp) (same : Z) (ctx : string) : verdict :=
       if String.eqb k "regen" then
         match map_opt (expr_of_sexp 50) pk, disk_of_sexp od with
         | Some p, Some old =>
@@ -151,7 +153,8 @@ Definition eval07 (e : sexp) : verdict :=
                v_model := sexp_of_result model;
                v_tag := old_tag p old ++ " " ++ depth_tag p ++ " " ++ outcome_tag model ++
                         (if wf p then "" else " not-wf") ++
-                        (if result_same pinned model then "" else " (pinned code differed)") |}
+                        (if result_same pinned model then "" else " (pinned code differed)") ++
+                        (if String.eqb ctx "" then "" else " ctx=" ++ ctx) |}
         | _, _ => bad_line
         end
       else if String.eqb k "regen-pinned" then
@@ -170,6 +173,11 @@ Definition eval07 (e : sexp) : verdict :=
                         (if Z.eqb same 1 then " =scratch" else " DIFFERS-from-scratch") |}
         | _, _ => bad_line
         end
-      else bad_line
+      else bad_line.
+
+Definition eval07 (e : sexp) : verdict :=
+  match e with
+  | L [Sym k; L pk; od; real; Num same] => eval_regen k pk od real same ""
+  | L [Sym k; L pk; od; real; Num same; Sym ctx] => eval_regen k pk od real same ctx
   | _ => bad_line
   end.
